@@ -83,11 +83,11 @@ type CertSpec struct {
 	NotAfter   time.Time
 	Key        KeySpecName
 	// leaf-only knobs
-	ExtKeyUsage  []x509.ExtKeyUsage
-	CriticalEKU  []asn1.ObjectIdentifier // written as a critical EKU extension (TSA leaf)
-	CRLDP        []string
-	NoKeyUsage   bool
-	LeafIsCA     bool
+	ExtKeyUsage []x509.ExtKeyUsage
+	CriticalEKU []asn1.ObjectIdentifier // written as a critical EKU extension (TSA leaf)
+	CRLDP       []string
+	NoKeyUsage  bool
+	LeafIsCA    bool
 }
 
 type Chain struct {
